@@ -1,12 +1,14 @@
 CONSTANTS
- Topics = {"u","t:u","t/u"}
- Groups = {"g","g:t","g/x"}
+ Topics = {"u","t:u","t%3Au"}
+ Groups = {"g","g:t","g/x","g%3At"}
  ColonNames = {"t:u","g:t"}
- SlashNames = {"t/u","g/x"}
+ SlashNames = {"g/x"}
+ PercentNames = {"t%3Au","g%3At"}
+ DeadVariants = {3}
  MaxParts = 2
  Offs = {0,1,2}
  Metas = {"","m"}
- Variants = {1,2}
+ Variants = {1,2,3}
  TimeoutVariants = {1}
  CfgVariants = {1}
  ToolNames = {"fetch_offsets"}
@@ -21,6 +23,9 @@ CONSTANTS
  DevFetchDefaultZero = FALSE
  DevCommitUnchecked = FALSE
  DevToolWrites = FALSE
+ DevToolReaps = FALSE
+ DevEscapeFastPath = FALSE
+ DevEtcdDeletePrefix = FALSE
 INIT Init
 NEXT NextCoord
 INVARIANTS EmitSched C16_ReadBack C16_NeverCommitted C16_Isolation
